@@ -96,6 +96,10 @@ type Cloud struct {
 	Hook func(cl *Cloud, c *Call)
 	// After is called under the cloud lock when a call has finished (effect applied).
 	After func(cl *Cloud, c *Call)
+	// AfterLoad, if set, is called WITHOUT the lock after LoadNetworkInterface has read the
+	// address list and before it returns it (a slow metadata service: the answer is stale
+	// by the time the caller sees it).
+	AfterLoad func()
 	// Gate, if set, is called WITHOUT the lock after the hook and before the effect;
 	// the harness may block there to hold the call.
 	Gate func(c *Call)
@@ -550,7 +554,11 @@ func (f *Factory) LoadNetworkInterface(mac string) ([]netip.Addr, []netip.Addr, 
 			if cl.NoV6 {
 				v6 = nil
 			}
+			al := cl.AfterLoad
 			cl.end(c, nil)
+			if al != nil {
+				al()
+			}
 			return v4, v6, nil
 		}
 	}
